@@ -849,6 +849,10 @@ class AdapterLookupBase:
 
     def _uncached_lookup(self, required, provided, name=''):
         required = tuple(required)
+        # Subscribe first: if one of the specifications changes while we
+        # compute (another thread), we are told, and the result lands in
+        # a cache that was dropped.
+        self._subscribe(*required)
         result = None
         order = len(required)
         for registry in self._registry.ro:
@@ -867,8 +871,6 @@ class AdapterLookupBase:
             if result is not None:
                 break
 
-        self._subscribe(*required)
-
         return result
 
     def queryMultiAdapter(self, objects, provided, name='', default=None):
@@ -886,6 +888,7 @@ class AdapterLookupBase:
 
     def _uncached_lookupAll(self, required, provided):
         required = tuple(required)
+        self._subscribe(*required)  # first, see _uncached_lookup
         order = len(required)
         result = {}
         for registry in reversed(self._registry.ro):
@@ -898,8 +901,6 @@ class AdapterLookupBase:
                 continue
             _lookupAll(components, required, extendors, result, 0, order)
 
-        self._subscribe(*required)
-
         return tuple(result.items())
 
     def names(self, required, provided):
@@ -907,6 +908,7 @@ class AdapterLookupBase:
 
     def _uncached_subscriptions(self, required, provided):
         required = tuple(required)
+        self._subscribe(*required)  # first, see _uncached_lookup
         order = len(required)
         result = []
         for registry in reversed(self._registry.ro):
@@ -924,8 +926,6 @@ class AdapterLookupBase:
 
             _subscriptions(components, required, extendors, '',
                            result, 0, order)
-
-        self._subscribe(*required)
 
         return result
 
